@@ -113,6 +113,11 @@ You can provide input either as a file (as the first argument) or by piping logs
 				fmt.Fprintln(os.Stderr, "Error: When using Atlas parameters, --outputFile (-o) must be specified.")
 				os.Exit(1)
 			}
+			// Validation: Atlas mode needs a project and a cluster (key or date flags alone do not describe a job)
+			if atlasParamsSet && (atlasProjectId == "" || atlasClusterName == "") {
+				fmt.Fprintln(os.Stderr, "Error: Atlas parameters were given without --atlasProjectId and --atlasClusterName. Both are required to read logs from an Atlas cluster.")
+				os.Exit(1)
+			}
 			if !atlasParamsSet && len(args) == 1 && stdinHasData {
 				fmt.Fprintln(os.Stderr, "Error: Cannot provide both a file and piped input. Please provide only one source.")
 				os.Exit(1)
